@@ -48,3 +48,13 @@ pub fn fail(args: &[P]) -> FFIReturnValue {
     }
     raise_error!("probe-raised-error")
 }
+
+/// Raises an error whose message is its first argument (a string; anything else gives the empty message).
+#[no_mangle]
+pub fn fail_with(args: &[P]) -> FFIReturnValue {
+    let m: String = match args.first() {
+        Some(P::Str(s)) => s.clone(),
+        _ => String::new(),
+    };
+    raise_error!(m)
+}
